@@ -215,5 +215,7 @@ template <class T> inline std::string frame_defect (const Matrix44<T>& m, LD tol
 void run_exact ();
 void run_rotations ();
 void run_frames ();
+void run_frames_scaled (); // c09_scaled.cpp: stages frames-scaled, nextframe-general
+void run_ext ();           // c09_ext.cpp: stages aliased-arguments, rotations-mixed-base, rotations-big-angles
 
 } // namespace c09
